@@ -3,6 +3,7 @@ from engine import *
 import obligations
 import ordimpls
 import provenance
+import mutations
 import re
 
 CM = 'lightning::ln::channelmanager::ChannelManager::'
@@ -413,3 +414,4 @@ RULES = [
 	('04.o', 'hand-written eq / cmp / partial_cmp / hash impls in this property\'s files: same field on both sides, reviewed direction, no reviewed key lost, hash within eq (rules/ordimpls.py)', lambda F: ordimpls.for_property(F, 'C04', '04.o')),
 ]
 RULES.append(('04.u', 'obligation-carrying values returned by workspace calls (to-fail HTLC lists, monitor updates, events, peer messages, claim packages) are never dropped on a path that does not examine them (rules/obligations.py)', lambda F: obligations.for_property(F, 'C04', '04.u')))
+RULES.append(('04.M', 'collection mutations: every reviewed (function, stored collection, mutator class: add / remove / filter / empty / swap / order) triple is still present - an entry that is no longer removed, inserted or drained on one path (rules/mutations.py)', lambda F: mutations.for_property(F, 'C04', '04.M')))
